@@ -35,6 +35,12 @@ EXTRA_ENGINES = [
     ("FSSTORE", ["C16", "C21"],
      "spec/FSStore.tla: the block file store (LocalFSWriter.Save protocol, crash points, readers, empty-height clean-up); TLC "
      "predictions per crash state compared with the real writer/readers/start-up checks; see check/fsstore.md"),
+    ("SRCPOOL", ["C15"],
+     "spec/SyncSourcePool.tla + SyncSourcePoolTrace.tla: isaac.SyncSourcePool (the sources the syncer and the importers pick from); "
+     "recorded call sequences of the real pool judged by the trace spec; see check/srcpool.md"),
+    ("CONNPOOL", ["C30"],
+     "spec/ConnPool.tla: quicstream.ConnectionPool (the connections the header client streams over); TLC scripts replayed on the real "
+     "pool with a stub dialer, forced Dial/Close/CloseAll schedules; see check/connpool.md"),
     ("STUCK", ["C04"],
      "spec/StuckResolver.tla: the ballot stuck resolver; trace validation of the real DefaultBallotStuckResolver; see check/stuck.md"),
 ]
